@@ -543,6 +543,7 @@ impl CipherSuiteProvider for SimSuite {
     }
 
     fn hash(&self, data: &[u8]) -> Result<Vec<u8>, Self::Error> {
+        cgate("hash")?;
         REC.with(|r| r.borrow_mut().n_hash += 1);
         let out = disp!(&self.inner, s => s.hash(data));
         if let Some(c) = &self.cross {
@@ -553,6 +554,7 @@ impl CipherSuiteProvider for SimSuite {
     }
 
     fn mac(&self, key: &[u8], data: &[u8]) -> Result<Vec<u8>, Self::Error> {
+        cgate("mac")?;
         let out = disp!(&self.inner, s => s.mac(key, data));
         if let Some(c) = &self.cross {
             let o2 = disp!(c, s => s.mac(key, data));
@@ -573,6 +575,7 @@ impl CipherSuiteProvider for SimSuite {
         aad: Option<&[u8]>,
         nonce: &[u8],
     ) -> Result<Vec<u8>, Self::Error> {
+        cgate("aead_seal")?;
         REC.with(|r| {
             let mut r = r.borrow_mut();
             if r.on {
@@ -613,6 +616,7 @@ impl CipherSuiteProvider for SimSuite {
         aad: Option<&[u8]>,
         nonce: &[u8],
     ) -> Result<Zeroizing<Vec<u8>>, Self::Error> {
+        cgate("aead_open")?;
         REC.with(|r| r.borrow_mut().n_aead_open += 1);
         let out = disp!(&self.inner, s => s.aead_open(key, cipher_text, aad, nonce));
         if let Some(c) = &self.cross {
@@ -644,6 +648,7 @@ impl CipherSuiteProvider for SimSuite {
     }
 
     fn kdf_extract(&self, salt: &[u8], ikm: &[u8]) -> Result<Zeroizing<Vec<u8>>, Self::Error> {
+        cgate("kdf_extract")?;
         REC.with(|r| r.borrow_mut().n_kdf += 1);
         let out = disp!(&self.inner, s => s.kdf_extract(salt, ikm));
         if let Some(c) = &self.cross {
@@ -664,6 +669,7 @@ impl CipherSuiteProvider for SimSuite {
         info: &[u8],
         len: usize,
     ) -> Result<Zeroizing<Vec<u8>>, Self::Error> {
+        cgate("kdf_expand")?;
         REC.with(|r| r.borrow_mut().n_kdf += 1);
         let out = disp!(&self.inner, s => s.kdf_expand(prk, info, len));
         if let Some(c) = &self.cross {
@@ -689,6 +695,7 @@ impl CipherSuiteProvider for SimSuite {
         aad: Option<&[u8]>,
         pt: &[u8],
     ) -> Result<HpkeCiphertext, Self::Error> {
+        cgate("hpke_seal")?;
         REC.with(|r| {
             let mut r = r.borrow_mut();
             if r.on {
@@ -712,6 +719,7 @@ impl CipherSuiteProvider for SimSuite {
         pt: &[u8],
         psk: HpkePsk<'_>,
     ) -> Result<HpkeCiphertext, Self::Error> {
+        cgate("hpke_seal_psk")?;
         REC.with(|r| {
             let mut r = r.borrow_mut();
             if r.on {
@@ -735,6 +743,7 @@ impl CipherSuiteProvider for SimSuite {
         info: &[u8],
         aad: Option<&[u8]>,
     ) -> Result<Zeroizing<Vec<u8>>, Self::Error> {
+        cgate("hpke_open")?;
         REC.with(|r| r.borrow_mut().n_hpke_open += 1);
         let out =
             disp!(&self.inner, s => s.hpke_open(ciphertext, local_secret, local_public, info, aad));
@@ -767,6 +776,7 @@ impl CipherSuiteProvider for SimSuite {
         aad: Option<&[u8]>,
         psk: HpkePsk<'_>,
     ) -> Result<Zeroizing<Vec<u8>>, Self::Error> {
+        cgate("hpke_open_psk")?;
         REC.with(|r| r.borrow_mut().n_hpke_open += 1);
         let psk2 = HpkePsk::new(psk.id, psk.value);
         let out = disp!(&self.inner, s => s.hpke_open_psk(ciphertext, local_secret, local_public, info, aad, HpkePsk::new(psk.id, psk.value)));
@@ -787,6 +797,7 @@ impl CipherSuiteProvider for SimSuite {
         remote_key: &HpkePublicKey,
         info: &[u8],
     ) -> Result<(Vec<u8>, Self::HpkeContextS), Self::Error> {
+        cgate("hpke_setup_s")?;
         REC.with(|r| {
             let mut r = r.borrow_mut();
             if r.on {
@@ -825,6 +836,7 @@ impl CipherSuiteProvider for SimSuite {
         local_public: &HpkePublicKey,
         info: &[u8],
     ) -> Result<Self::HpkeContextR, Self::Error> {
+        cgate("hpke_setup_r")?;
         let out = match &self.inner {
             Inner::Det(s) => s
                 .hpke_setup_r(enc, local_secret, local_public, info)
@@ -873,6 +885,7 @@ impl CipherSuiteProvider for SimSuite {
     }
 
     fn kem_derive(&self, ikm: &[u8]) -> Result<(HpkeSecretKey, HpkePublicKey), Self::Error> {
+        cgate("kem_derive")?;
         let out = disp!(&self.inner, s => s.kem_derive(ikm));
         if let Some(c) = &self.cross {
             let o2 = disp!(c, s => s.kem_derive(ikm));
@@ -888,6 +901,7 @@ impl CipherSuiteProvider for SimSuite {
     }
 
     fn kem_generate(&self) -> Result<(HpkeSecretKey, HpkePublicKey), Self::Error> {
+        cgate("kem_generate")?;
         // (keys come from the provider's own generator: that is what produces provider-shaped key material, such as
         // a scalar exported without its leading zero byte; disagreements are recorded with their inputs - PrimCase)
         let out = disp!(&self.inner, s => s.kem_generate());
@@ -914,6 +928,7 @@ impl CipherSuiteProvider for SimSuite {
     }
 
     fn kem_public_key_validate(&self, key: &HpkePublicKey) -> Result<(), Self::Error> {
+        cgate("kem_public_key_validate")?;
         let out = disp!(&self.inner, s => s.kem_public_key_validate(key));
         if let Some(c) = &self.cross {
             let o2 = disp!(c, s => s.kem_public_key_validate(key));
@@ -929,6 +944,7 @@ impl CipherSuiteProvider for SimSuite {
     }
 
     fn random_bytes(&self, out: &mut [u8]) -> Result<(), Self::Error> {
+        cgate("random_bytes")?;
         match &self.inner {
             Inner::Det(_) => {
                 self.ctx.prng.lock().unwrap().fill(out);
@@ -943,6 +959,7 @@ impl CipherSuiteProvider for SimSuite {
     fn signature_key_generate(
         &self,
     ) -> Result<(SignatureSecretKey, SignaturePublicKey), Self::Error> {
+        cgate("signature_key_generate")?;
         match &self.inner {
             Inner::Det(s) => det_signature_key(self.cs, s, &self.ctx),
             Inner::Rc(s) => s.signature_key_generate().map_err(e),
@@ -955,6 +972,7 @@ impl CipherSuiteProvider for SimSuite {
         &self,
         secret_key: &SignatureSecretKey,
     ) -> Result<SignaturePublicKey, Self::Error> {
+        cgate("signature_key_derive_public")?;
         let out = disp!(&self.inner, s => s.signature_key_derive_public(secret_key));
         if let Some(c) = &self.cross {
             let o2 = disp!(c, s => s.signature_key_derive_public(secret_key));
@@ -970,6 +988,7 @@ impl CipherSuiteProvider for SimSuite {
     }
 
     fn sign(&self, secret_key: &SignatureSecretKey, data: &[u8]) -> Result<Vec<u8>, Self::Error> {
+        cgate("sign")?;
         REC.with(|r| r.borrow_mut().n_sign += 1);
         let out = disp!(&self.inner, s => s.sign(secret_key, data));
         if let (Some(c), Ok(sig)) = (&self.cross, &out) {
@@ -996,6 +1015,7 @@ impl CipherSuiteProvider for SimSuite {
         signature: &[u8],
         data: &[u8],
     ) -> Result<(), Self::Error> {
+        cgate("verify")?;
         REC.with(|r| r.borrow_mut().n_verify += 1);
         let out = disp!(&self.inner, s => s.verify(public_key, signature, data));
         if let Some(c) = &self.cross {
@@ -1052,6 +1072,59 @@ fn det_signature_key(
         }
         Err(SimCryptoError("could not derive signature key".into()))
     }
+}
+
+// ---------------------------------------------------------------------------------------------
+// C-ERR: injected provider errors (the k-th provider call of one library operation fails)
+
+#[derive(Default)]
+pub struct CFault {
+    pub counting: bool,
+    pub calls: u32,
+    pub fail_at: Option<u32>,
+    pub fired: u32,
+    pub site: &'static str,
+}
+
+thread_local! {
+    pub static CFAULT: RefCell<CFault> = RefCell::new(CFault::default());
+}
+
+pub fn cfault_begin(fail_at: Option<u32>) {
+    CFAULT.with(|c| {
+        let mut c = c.borrow_mut();
+        c.counting = true;
+        c.calls = 0;
+        c.fired = 0;
+        c.fail_at = fail_at;
+        c.site = "";
+    })
+}
+
+/// returns (provider calls made, faults fired, name of the call that failed)
+pub fn cfault_end() -> (u32, u32, &'static str) {
+    CFAULT.with(|c| {
+        let mut c = c.borrow_mut();
+        c.counting = false;
+        c.fail_at = None;
+        (c.calls, c.fired, c.site)
+    })
+}
+
+fn cgate(what: &'static str) -> Result<(), SimCryptoError> {
+    CFAULT.with(|c| {
+        let mut c = c.borrow_mut();
+        if c.counting {
+            let i = c.calls;
+            c.calls += 1;
+            if c.fail_at == Some(i) {
+                c.fired += 1;
+                c.site = what;
+                return Err(SimCryptoError(format!("injected crypto provider error at call {i} ({what})")));
+            }
+        }
+        Ok(())
+    })
 }
 
 impl ProviderKind {
